@@ -16,6 +16,38 @@ def ordered(x):
     return json.JSONDecoder(object_pairs_hook=lambda kv: ("o", kv)).decode(x) if isinstance(x, str) else x
 
 
+def _tree(x):
+    """order-preserving encoding of a decoded JSON value for the Lean driver (json.loads keeps key order)"""
+    if x is None:
+        return None
+    if isinstance(x, dict):
+        return {"o": [[k, _tree(v)] for k, v in x.items()]}
+    if isinstance(x, list):
+        return {"a": [_tree(v) for v in x]}
+    return {"l": json.dumps(x, ensure_ascii=False, separators=(",", ":"))}
+
+
+def _wire(p):
+    return {"path": p.get("path", ""), "label": p.get("label", ""), "tree": _tree(p.get("data")),
+            "errors": [[e["path"], e["message"]] for e in p.get("errors") or []], "hasNext": p.get("hasNext")}
+
+
+def with_wire(r):
+    """the harness result plus `wire` / `plainWire`: the payload sequence and the plain run with object key order
+    made explicit (Lean's JSON objects are unordered maps)"""
+    if r.get("gateErrors") or not r.get("payloads"):
+        return json.dumps(r)
+    r = dict(r)
+    r["wire"] = [_wire(p) for p in r["payloads"]]
+    if r.get("plain") and r["plain"].get("payloads"):
+        r["plainWire"] = _wire(r["plain"]["payloads"][0])
+    return json.dumps(r)
+
+
+def _kinds(cl):
+    return sorted(c.split(":")[0] for c in cl)
+
+
 def judge(r, m):
     """one executed case `r` (with its plain twin) against C13 itself and against the defer model's line `m`;
     returns None for cases that never executed, else (tags, why, spec_bad, model json)"""
@@ -51,6 +83,17 @@ def judge(r, m):
             why.append("model:" + m[:40])
         else:
             mj = json.loads(m)
+            if r.get("plain") and not r["plain"].get("gateErrors") and "clauses" in mj:
+                # the C13 statement as evaluated by Lean (Model/DeferSpec.lean) is the verdict; the Python
+                # evaluation must agree with it clause for clause
+                if mj["clauses"] != ["no-wire"]:
+                    if _kinds(mj["clauses"]) != _kinds(spec_bad):
+                        why.append("spec-evaluators-disagree: lean %s python %s" % (_kinds(mj["clauses"]), _kinds(spec_bad)))
+                    spec_bad = [c.replace("|", ", ") for c in mj["clauses"]]
+                # the model's own payload sequence must satisfy the content clauses too
+                mc = [c for c in mj.get("modelClauses", []) if c.split(":")[0] in ("merged-data-differs-from-plain", "error-not-in-plain", "group-delivered-twice", "payload-object-missing-but-present-in-plain")]
+                if mc:
+                    why.append("model-violates-statement: " + ",".join(_kinds(mc)))
             if json.loads(mj["initial"]["data"]) != P[0]["data"]:
                 why.append("initial-data")
             if mj["initial"]["errors"] != sorted(e["path"] + " :: " + e["message"] for e in P[0]["errors"]):
@@ -237,7 +280,7 @@ def run(ctx):
             plains = [json.loads(x) for x in so.split("\n") if x]
             for r, pr in zip(need, plains):
                 r["plain"] = pr
-        model = ctx.driver("c13", [schema] + [l for l, _ in lines]) if proved else [None] * len(lines)
+        model = ctx.driver("c13", [schema] + [with_wire(r) for _, r in lines]) if proved else [None] * len(lines)
         ok = 0
         for (l, r), m in zip(lines, model):
             total += 1
